@@ -20,7 +20,8 @@ Tag(e, suffix) == e.ctx \o suffix
 BadValue(rows) == \E i \in DOMAIN rows : \E j \in DOMAIN rows[i] : rows[i][j] = -99
 
 PinCheck(e, ln) == IF Has(e, "pb") /\ e.pb # e.pa THEN V("C14.pins", ln, <<e.ev, e.pb, e.pa>>) ELSE <<>>
-FailCheck(e, ln) == IF e.res # "ok" THEN V(Tag(e, ".fail"), ln, <<e.ev, e.res>>) ELSE <<>>
+(* a statement of an explicit transaction may abort the transaction (the caller then rolls back) *)
+FailCheck(e, ln) == IF e.res # "ok" /\ ~(Has(e, "intxn") /\ e.res = "abort") THEN V(Tag(e, ".fail"), ln, <<e.ev, e.res>>) ELSE <<>>
 
 Ordered(keys) == \A i \in 1..(Len(keys) - 1) : keys[i] <= keys[i + 1]
 InRange(v, lo, hi) == v # Null /\ (lo = -2 \/ v >= lo) /\ (hi = -2 \/ v <= hi)
